@@ -75,19 +75,20 @@ type Option struct {
 }
 
 type Sched struct {
-	gs       []*G
-	running  *G
-	yield    chan struct{}
-	ack      chan struct{}
-	chans    map[uintptr]*chanInfo
-	chanList []*chanInfo
-	aborting bool
-	exited   chan struct{}
-	Steps    int
-	fault    *Fault
-	trace    []string
-	wantTr   bool
-	timer    *time.Timer
+	gs        []*G
+	running   *G
+	yield     chan struct{}
+	ack       chan struct{}
+	chans     map[uintptr]*chanInfo
+	chanList  []*chanInfo
+	aborting  bool
+	exited    chan struct{}
+	Steps     int
+	fault     *Fault
+	trace     []string
+	wantTr    bool
+	timer     *time.Timer
+	sharedOrd map[string]uint64
 }
 
 // Fault describes an abnormal end of a controlled goroutine.
@@ -452,6 +453,23 @@ func Yield(tag string) {
 	g := s.running
 	s.park(g, &op{kind: opChoose, n: 1, tag: tag})
 	g.hist = mixs(mixs(g.hist, "y"), tag)
+}
+
+// Shared marks an access to process-wide mutable state that several
+// goroutines touch outside channels (the RNG): a scheduling point, and the
+// global access order becomes part of the accessing goroutine's history.
+func Shared(name string) {
+	s := cur
+	if s == nil || s.aborting {
+		return
+	}
+	g := s.running
+	s.park(g, &op{kind: opChoose, n: 1, tag: "shared:" + name})
+	if s.sharedOrd == nil {
+		s.sharedOrd = map[string]uint64{}
+	}
+	s.sharedOrd[name]++
+	g.hist = mixu(mixs(mixs(g.hist, "sh"), name), s.sharedOrd[name])
 }
 
 // Note folds harness-visible state into the running goroutine's history (so
